@@ -35,7 +35,11 @@ func valOf(rv reflect.Value, lv int) *val.Val {
 		panic(fmt.Errorf("val: Of(nil %v)", rv))
 	}
 	rt := rv.Type()
-	for rv.Kind() == reflect.Interface || rv.Kind() == reflect.Pointer {
+	// 指针/接口可以不经过任何容器就指回自己 (var x interface{}; x = &x), 解引用的次数也要有上限
+	for n := 0; rv.Kind() == reflect.Interface || rv.Kind() == reflect.Pointer; n++ {
+		if n > maxLevel {
+			panic("max nested depth exceeded")
+		}
 		rv = rv.Elem()
 		rt = rv.Type()
 	}
